@@ -407,6 +407,10 @@ class ServerBase:
                 self.handle_disconnect(outgoing[0])
                 _logger.warning('Connection reset while sending message.')
                 continue
+            except BrokenPipeError:
+                # The peer is gone (a second write after it closed); the main
+                # loop will read EOF on this connection and disconnect it
+                continue
             except OSError:
                 if outgoing[0].closed:
                     # Closed by the main thread after the check above
